@@ -110,12 +110,31 @@ def rule_line_basics(rep: Report, rid="C04.indent") -> None:
         rep.ob(rid, f"{name} tests the left-trimmed text", okf, file=LFILE, line=fi.node.lineno, function=fi.qualname, expected=fmt(want, I), found=fmt(rv, I))
 
 
+def _before_first_match(t):
+    """(pattern, subject) when t is the part of subject before the first match of pattern (all of it when nothing matches):
+    ``re.split(p, s, ...)[0]`` or ``s[:m.start()] if (m := re.search(p, s)) else s``."""
+    if t[0] == "item" and is_const(t[2], 0) and t[1][0] == "call" and t[1][1] == "re.split" and len(t[1][2]) >= 2:
+        return t[1][2][0], t[1][2][1]
+    if t[0] == "cond":
+        c, a, b = t[1], t[2], t[3]
+        if c[0] == "cmp" and c[1] == "Is" and is_const(c[3], None):
+            c, a, b = c[2], b, a
+        if c[0] == "call" and c[1] == "re.search" and len(c[2]) == 2 and not c[3] and c[2][1] == b \
+                and a == ("slice", b, NONE, ("call", ".start", (c,), ()), NONE):
+            return c[2][0], b
+    return None
+
+
 def rule_tags(rep: Report, rid="C04.tags") -> None:
     I, fi, tree, rv, st = _run(f"{LQ}.tags")
     rep.used_function(fi.qualname)
     selft = ("param", fi.params()[0])
     kw = dict(file=LFILE, line=fi.node.lineno, function=fi.qualname)
     loops = [n for n, ctx in nf.iter_nodes(tree) if n[0] == "loop" and not nf.loops_in_ctx(ctx)]
+    # a comprehension that only computes values (no append, no raise) is not a scan of its own
+    effects = ("mutate", "raise", "setattr", "setitem", "yield", "return", "extcall")
+    scans = [n for n in loops if not (I.loops[n[1]].get("kind") == "comp" and not any(x[0] in effects for x, _ in nf.iter_nodes(n[2])))]
+    loops = scans if len(scans) == 1 else loops
     if len(loops) != 1:
         rep.ob(rid, "tags are extracted by one scan over the '@'-separated pieces", False, **kw, expected="one loop", found=len(loops))
         return
@@ -123,7 +142,7 @@ def rule_tags(rep: Report, rid="C04.tags") -> None:
     info = I.loops[lid]
     el = ("elem", lid)
     # iterated pieces: X.split('@')[1:]
-    it = info.get("iter")
+    it = nf.push_cond_in(info.get("iter")) if info.get("iter") is not None else None
     ok_it = it is not None and it[0] == "slice" and is_const(it[2], 1) and it[3] == NONE and it[1][0] == "call" and it[1][1] == ".split" \
         and len(it[1][2]) == 2 and is_const(it[1][2][1], "@")
     rep.ob(rid, "the pieces are the '@'-separated parts after the first (text before the first '@' is no tag)", ok_it, **kw,
@@ -136,10 +155,9 @@ def rule_tags(rep: Report, rid="C04.tags") -> None:
         s0 = src
         if s0[0] == "call" and s0[1] == ".strip" and len(s0[2]) == 1:
             s0 = s0[2][0]
-        if s0[0] == "item" and is_const(s0[2], 0) and s0[1][0] == "call" and s0[1][1] == "re.split":
-            a = s0[1][2]
-            pat = a[0]
-            subj = a[1] if len(a) > 1 else None
+        pm = _before_first_match(s0)
+        if pm is not None:
+            pat, subj = pm
             ok_src = is_const(pat) and regexnf.same(pat[1], 0, r"\s#") and subj in (trimmed, ("call", ".strip", (trimmed,), ()))
     rep.ob(rid, "the scanned text is the left-trimmed line up to a trailing ' #' comment; no leading characters are removed before the first tag",
            ok_src, **kw, expected="re.split(r'\\s#', trimmed.strip())[0]", found=fmt(src, I) if src else None)
@@ -226,6 +244,22 @@ def _str_parts(t):
     return out
 
 
+ENUM_COL = "__position"      # the column counter when positions come from enumerate(row, start=...)
+
+
+def _enum_start(v, rowp):
+    """start of ``enumerate(row[, start])`` (an int), else None."""
+    if not (isinstance(v, tuple) and v and v[0] == "call" and v[1] == "enumerate" and v[2] and v[2][0] == rowp):
+        return None
+    start = const(0)
+    if len(v[2]) == 2:
+        start = v[2][1]
+    for k, x in v[3] or ():
+        if k == "start":
+            start = x
+    return start[1] if is_const(start) and isinstance(start[1], int) and len(v[2]) <= 2 else None
+
+
 def splitter_table():
     """Finite-class abstract interpretation of split_table_cells' loop body: one abstract run per
     (first_cell state, character-class sequence).  Returns (rows, problems, fi)."""
@@ -254,10 +288,15 @@ def splitter_table():
     pre_I.stack.pop()
     init = dict(pre_state.env)
     # variables: iterator, col, start_col, cell, first flag -- discovered by value
-    it_vars = [k for k, v in init.items() if v[0] == "call" and v[1] == "iter" and v[2] == (rowp,)]
+    it_vars = [k for k, v in init.items() if (v[0] == "call" and v[1] == "iter" and v[2] == (rowp,)) or _enum_start(v, rowp) is not None]
     if len(it_vars) != 1:
-        return None, [f"the row is not scanned through one iterator (iter(row)): {sorted(init)}"], fi
+        return None, [f"the row is not scanned through one iterator (iter(row) / enumerate(row)): {sorted(init)}"], fi
     itv = it_vars[0]
+    # positions delivered with the characters (enumerate): the column counter is the iterator's own, one behind the
+    # position of the next character
+    enum = _enum_start(init[itv], rowp)
+    if enum is not None:
+        init[ENUM_COL] = const(enum - 1)
     seqs = [["|"], ["\\", "n"], ["\\", "|"], ["\\", "\\"], ["\\", "x"], ["\\", END], ["x"], ["n"], [END]]
     flags = [k for k, v in init.items() if is_const(v) and isinstance(v[1], bool)]
     if len(flags) != 1:
@@ -287,6 +326,13 @@ def splitter_table():
                     st.env[k] = ("param", k)
             feed = list(seq)
             calls = []
+            taken = [0]
+
+            def item_of(c, taken=taken):
+                if enum is None:
+                    return const(c)
+                taken[0] += 1
+                return ("tuple", (("binop", "Add", ("param", ENUM_COL), const(taken[0])), const(c)))
 
             def next_hook(I_, st_, args, kwargs, n, tree_, feed=feed, calls=calls):
                 if not args or args[0] != init[itv]:
@@ -298,7 +344,7 @@ def splitter_table():
                 c = feed.pop(0)
                 if c is END:
                     return default
-                return const(c)
+                return item_of(c)
             I2.builtin_hooks["next"] = next_hook
             I2.stack.append(Activation(fi, 0))
             tree: list = []
@@ -308,10 +354,12 @@ def splitter_table():
                 out = Outcome(brk=st)
             else:
                 if is_for:
-                    I2.bind_target(st, loop.target, const(feed.pop(0)))
+                    I2.bind_target(st, loop.target, item_of(feed.pop(0)))
                 out = I2.exec_block(loop.body, st, tree)
             I2.stack.pop()
             end = out.live or out.cont or out.brk
+            if enum is not None and end is not None:
+                end.env[ENUM_COL] = ("binop", "Add", ("param", ENUM_COL), const(taken[0]))
             yields = [n[1] for n, _ in nf.iter_nodes(tree) if n[0] == "yield"]
             if late_yield and seq[0] is END:
                 yields.append(("opaque", "yield after the loop"))
@@ -366,8 +414,10 @@ def rule_split(rep: Report, rid="C12.split", rid_col="C04.cells") -> None:
         cell0, col0, start0 = ("param", cellv), ("param", colv), ("param", startv)
         got_cell = _str_parts(env.get(cellv, ("undef",)))
         ncons = want_consumed
-        rep.ob(rid_col, f"{name}: the column counter advances by the number of characters consumed", lin_eq(env.get(colv, NONE), ("binop", "Add", col0, const(ncons))), **kw,
-               expected=f"col + {ncons}", found=fmt(env.get(colv, NONE), I))
+        if seq[-1] is not END:
+            # (after the end of the row nothing is yielded any more, so the counter is no longer read)
+            rep.ob(rid_col, f"{name}: the column counter advances by the number of characters consumed", lin_eq(env.get(colv, NONE), ("binop", "Add", col0, const(ncons))), **kw,
+                   expected=f"col + {ncons}", found=fmt(env.get(colv, NONE), I))
         if lead == "|":
             rep.eq(rid, f"{name}: " + ("opens the first cell without yielding" if first else "yields the finished cell"), 0 if first else 1, len(r["yields"]), **kw)
             if not first and r["yields"]:
@@ -441,6 +491,9 @@ def rule_split_init(rep: Report, rid="C04.cells") -> None:
     st.env[fi.params()[-1]] = ("param", fi.params()[-1])
     I2.exec_block([s for s in fi.node.body[: fi.node.body.index(loop)] if not (isinstance(s, ast.Expr) and isinstance(s.value, ast.Constant))], st, [])
     I2.stack.pop()
+    if colv == ENUM_COL:
+        es = [e for e in (_enum_start(v, ("param", fi.params()[-1])) for v in st.env.values()) if e is not None]
+        st.env[ENUM_COL] = const(es[0] - 1) if len(es) == 1 else NONE
     rep.eq(rid, "the column counter starts at 0 (nothing consumed)", const(0), st.env.get(colv), **kw)
     rep.eq(rid, "the first cell would start at column 1", const(1), st.env.get(startv), **kw)
     rep.eq(rid, "the cell text starts empty", const(""), st.env.get(cellv), **kw)
@@ -449,7 +502,7 @@ def rule_split_init(rep: Report, rid="C04.cells") -> None:
     rep.used_function(fi2.qualname)
     selft = ("param", fi2.params()[0])
     kw2 = dict(file=LFILE, line=fi2.node.lineno, function=fi2.qualname)
-    segs = nf.list_content(I, rv, tree) if rv[0] == "ref" else []
+    segs = nf.flatten_segs(I, nf.list_content(I, rv, tree), tree) if rv[0] == "ref" else []
     if not (len(segs) == 1 and segs[0][0] == "loop"):
         rep.ob(rid, "table_cells maps the splitter's output one to one", False, **kw2, expected="one item per split cell", found=fmt(rv, I))
         return
